@@ -54,8 +54,9 @@ type c05Job struct {
 	MaskLo int    `json:"lo"`
 	MaskHi int    `json:"hi"`
 	Depth  int    `json:"depth"`
-	Puts   bool   `json:"puts"` // additionally: every single put into each gap (depth-1 sequences)
-	ReadTx bool   `json:"read"` // sequences in a read transaction on the committed shape (mask ignored)
+	Puts   bool   `json:"puts"`            // additionally: every single put into each gap (depth-1 sequences)
+	ReadTx bool   `json:"read"`            // sequences in a read transaction on the committed shape (mask ignored)
+	Reuse  bool   `json:"reuse,omitempty"` // cursors created and positioned BEFORE the deletes/puts, repositioned afterwards
 	Replay bool   `json:"replay"`
 	Mask   int    `json:"mask"`
 	PutGap int    `json:"putgap"` // -1 none
@@ -392,6 +393,117 @@ func c05Work(job c05Job) c05Res {
 		defer c05Active.Store(false)
 		return c05Case(b, m, alpha, depth, &res, only)
 	}
+	// runReuse: valid cursor reuse across mutations. The API asks for a cursor to be REPOSITIONED after the bucket was
+	// changed - First, Last and Seek are repositioning calls, so a cursor that was created and positioned before the
+	// deletes/puts of this case and is then repositioned must behave like a fresh one. For every earlier position
+	// (First, Last, Seek(every key)) one cursor per sequence [R] and [R, X] (R repositioning, X any call) is created
+	// before the mutations; only = {pre-position, calls...} replays one of them.
+	runReuse := func(mask int, putGap int, only []int) (string, []int) {
+		if err := os.WriteFile(path, data, 0600); err != nil {
+			return "harness: " + err.Error(), nil
+		}
+		db, err := bolt.Open(path, 0600, apix.Cfg{PageSize: job.PS, Freelist: job.FL}.Options())
+		if err != nil {
+			return "harness: open: " + err.Error(), nil
+		}
+		defer db.Close()
+		tx, err := db.Begin(true)
+		if err != nil {
+			return "harness: begin: " + err.Error(), nil
+		}
+		defer func() { _ = tx.Rollback() }()
+		b := tx.Bucket([]byte("t"))
+		m := refmodel.New()
+		for _, k := range sh.Keys {
+			m.Ent[k] = &refmodel.Ent{Val: b.Get([]byte(k))}
+		}
+		for _, s := range sh.Subs {
+			m.Ent[s] = &refmodel.Ent{Sub: refmodel.New()}
+		}
+		var pre []curCall // earlier positions
+		pre = append(pre, curCall{"First", ""}, curCall{"Last", ""})
+		for _, k := range sh.Keys {
+			pre = append(pre, curCall{"Seek", k})
+		}
+		var repos []int // indices of repositioning calls in alpha
+		for i, c := range alpha {
+			if c.kind != "Next" && c.kind != "Prev" {
+				repos = append(repos, i)
+			}
+		}
+		type planned struct {
+			c   *bolt.Cursor
+			pre int
+			seq []int
+		}
+		var plan []planned
+		position := func(pi int) *bolt.Cursor {
+			c := b.Cursor()
+			switch pre[pi].kind {
+			case "First":
+				c.First()
+			case "Last":
+				c.Last()
+			default:
+				c.Seek([]byte(pre[pi].arg))
+			}
+			return c
+		}
+		if only != nil {
+			plan = append(plan, planned{position(only[0]), only[0], only[1:]})
+		} else {
+			for pi := range pre {
+				for _, r := range repos {
+					plan = append(plan, planned{position(pi), pi, []int{r}})
+					for x := range alpha {
+						plan = append(plan, planned{position(pi), pi, []int{r, x}})
+					}
+				}
+			}
+		}
+		// now the mutations of this case
+		for i, k := range sh.Keys {
+			if mask&(1<<uint(i)) != 0 {
+				if err := b.Delete([]byte(k)); err != nil {
+					return "harness: delete: " + err.Error(), nil
+				}
+				delete(m.Ent, k)
+			}
+		}
+		if putGap >= 0 {
+			g := gapKeys(all)[putGap]
+			v := []byte("put-" + g)
+			if err := b.Put([]byte(g), v); err != nil {
+				return "harness: put: " + err.Error(), nil
+			}
+			m.Ent[g] = &refmodel.Ent{Val: v}
+		}
+		res.Cases++
+		c05Now.Store(fmt.Sprintf("shape %s, page size %d, cursor positioned before keys %s were deleted / gap %d was filled, repositioned afterwards", sh.Name, job.PS, maskKeys(sh.Keys, mask), putGap))
+		c05Active.Store(true)
+		defer c05Active.Store(false)
+		for _, pl := range plan {
+			mc := m.Cursor()
+			res.Seqs++
+			for i, ci := range pl.seq {
+				res.Calls++
+				if msg := doCall(pl.c, mc, alpha[ci]); msg != "" {
+					var names []string
+					for _, cj := range pl.seq[:i+1] {
+						names = append(names, alpha[cj].String())
+					}
+					return fmt.Sprintf("cursor positioned with %s BEFORE the deletes/puts, then (after them) %s: %s", pre[pl.pre], strings.Join(names, ", "), msg),
+						append([]int{pl.pre}, pl.seq[:i+1]...)
+				}
+			}
+		}
+		return "", nil
+	}
+	if job.Replay && job.Reuse {
+		msg, _ := runReuse(job.Mask, job.PutGap, job.Seq)
+		res.Fail = msg
+		return res
+	}
 	if job.Replay {
 		msg, _ := runCase(job.Mask, job.PutGap, len(job.Seq), job.Seq)
 		res.Fail = msg
@@ -404,6 +516,25 @@ func c05Work(job c05Job) c05Res {
 	if job.ReadTx {
 		if msg, seq := runCase(0, -1, job.Depth, nil); msg != "" {
 			report(0, -1, msg, seq)
+		}
+		return res
+	}
+	if job.Reuse {
+		for mask := job.MaskLo; mask < job.MaskHi; mask++ {
+			gaps := []int{-1}
+			for g := range gapKeys(all) {
+				gaps = append(gaps, g)
+			}
+			for _, g := range gaps {
+				if mask == 0 && g == -1 {
+					continue // nothing mutated
+				}
+				if msg, seq := runReuse(mask, g, nil); msg != "" {
+					res.Fail = fmt.Sprintf("shape %s, keys deleted in the write tx: %s, put into gap: %d: %s", sh.Name, maskKeys(sh.Keys, mask), g, msg)
+					res.FailAt = &c05Job{PS: job.PS, FL: job.FL, Shape: job.Shape, Replay: true, Reuse: true, Mask: mask, PutGap: g, Seq: seq}
+					return res
+				}
+			}
 		}
 		return res
 	}
@@ -486,6 +617,10 @@ func C05(tier string) int {
 				}
 				j := c05Job{PS: ps, FL: flt, Shape: si, MaskLo: lo, MaskHi: hi, Depth: depth, Puts: true}
 				meta = append(meta, j)
+				if n > 0 && (n < 12 || tier == "thorough" || lo%64 == 0) {
+					// cursors reused across the mutations (quick: every 8th chunk of deletion subsets of the 12-key shape)
+					meta = append(meta, c05Job{PS: ps, FL: flt, Shape: si, MaskLo: lo, MaskHi: hi, Reuse: true})
+				}
 			}
 			meta = append(meta, c05Job{PS: ps, FL: flt, Shape: si, Depth: depth, ReadTx: true})
 		}
